@@ -32,6 +32,9 @@ type serverConn struct {
 	parserMu sync.Mutex
 	parser   parser.Parser
 
+	// Runs the handlers of the received packets in order, per namespace.
+	dispatcher packetDispatcher
+
 	closeOnce sync.Once
 	debug     Debugger
 
@@ -95,10 +98,11 @@ func (c *serverConn) onEIOPacket(packets ...*eioparser.Packet) {
 }
 
 func (c *serverConn) onParserFinish(header *parser.PacketHeader, eventName string, decode parser.Decode) {
-	go func() {
-		if header.Namespace == "" {
-			header.Namespace = "/"
-		}
+	if header.Namespace == "" {
+		header.Namespace = "/"
+	}
+
+	handle := func() {
 		socket, ok := c.sockets.getByNsp(header.Namespace)
 
 		if header.Type == parser.PacketTypeConnect && !ok {
@@ -112,7 +116,17 @@ func (c *serverConn) onParserFinish(header *parser.PacketHeader, eventName strin
 			c.debug.Log("Invalid state", "packet type", header.Type)
 			c.close()
 		}
-	}()
+	}
+
+	switch header.Type {
+	case parser.PacketTypeAck, parser.PacketTypeBinaryAck:
+		// An acknowledgement does not wait for the handlers of earlier packets:
+		// one of them might be waiting for this very acknowledgement.
+		go handle()
+	default:
+		// Everything else is handed over in the order it was received.
+		c.dispatcher.add(header.Namespace, handle)
+	}
 }
 
 func (c *serverConn) connect(header *parser.PacketHeader, decode parser.Decode) {
